@@ -63,6 +63,12 @@ pub(crate) struct TypeVarDataId {
 
 impl TypeVarDataId {
     pub(crate) fn new() -> Self {
+        #[cfg(feature = "verif")]
+        if true {
+            return Self {
+                id: crate::verif::next_id(1),
+            };
+        }
         static ID_COUNTER: AtomicU32 = AtomicU32::new(1);
         let id = ID_COUNTER.fetch_add(1, Ordering::Relaxed);
         Self { id }
@@ -462,6 +468,12 @@ pub(crate) struct PolyInstantiationId {
 
 impl PolyInstantiationId {
     pub(crate) fn new() -> Self {
+        #[cfg(feature = "verif")]
+        if true {
+            return Self {
+                id: crate::verif::next_id(2),
+            };
+        }
         static ID_COUNTER: AtomicU32 = AtomicU32::new(1);
         let id = ID_COUNTER.fetch_add(1, Ordering::Relaxed);
         Self { id }
